@@ -48,6 +48,18 @@ fn exports() -> &'static Vec<Export> {
     })
 }
 
+/// (path, number of parameters) of every std function that touches neither the file system nor stdin/stdout
+pub fn pure_functions() -> Vec<(String, usize)> {
+    exports()
+        .iter()
+        .filter(|e| !e.path.starts_with("std.fs") && !e.path.starts_with("std.io"))
+        .filter_map(|e| match Ty::from_real(&e.value.as_type()) {
+            Ty::Fun(ps, _) => Some((e.path.clone(), ps.len())),
+            _ => None,
+        })
+        .collect()
+}
+
 fn find(path: &str) -> Option<&'static Export> {
     exports().iter().find(|e| e.path == path)
 }
